@@ -1,0 +1,106 @@
+//go:build verif
+
+package zygo
+
+// Instrumentation for the runtime monitors under /verif. Only compiled with
+// -tags verif. Nothing here changes interpreter behaviour unless a budget or
+// an injected fault is armed by the harness.
+
+import (
+	"errors"
+	"reflect"
+)
+
+var ErrVerifBudget = errors.New("verif: step budget exceeded")
+var ErrVerifInjected = errors.New("verif: injected instruction fault")
+
+// VerifState is process-global: harness workers are single-threaded.
+type VerifState struct {
+	Steps  int64 // instructions executed since VerifReset
+	Budget int64 // 0 = unlimited
+	FailAt int64 // return ErrVerifInjected when Steps == FailAt (0 = off)
+
+	Watch                           *Zlisp // high-water marks only for this env
+	HiData, HiScope, HiAddr, HiLoop int
+
+	HistOn bool
+	Hist   map[reflect.Type]int64
+}
+
+var Verif VerifState
+
+func VerifReset(budget int64) {
+	Verif.Steps = 0
+	Verif.Budget = budget
+	Verif.FailAt = 0
+	Verif.HiData, Verif.HiScope, Verif.HiAddr, Verif.HiLoop = 0, 0, 0, 0
+}
+
+func VerifHist() map[string]int64 {
+	r := map[string]int64{}
+	for t, n := range Verif.Hist {
+		r[t.String()] = n
+	}
+	return r
+}
+
+func (env *Zlisp) verifAfterExecute(instr Instruction) error {
+	v := &Verif
+	v.Steps++
+	if env == v.Watch {
+		if d := env.datastack.Size(); d > v.HiData {
+			v.HiData = d
+		}
+		if d := env.linearstack.Size(); d > v.HiScope {
+			v.HiScope = d
+		}
+		if d := env.addrstack.Size(); d > v.HiAddr {
+			v.HiAddr = d
+		}
+		if d := env.loopstack.Size(); d > v.HiLoop {
+			v.HiLoop = d
+		}
+	}
+	if v.HistOn {
+		if v.Hist == nil {
+			v.Hist = map[reflect.Type]int64{}
+		}
+		v.Hist[reflect.TypeOf(instr)]++
+	}
+	if v.FailAt > 0 && v.Steps == v.FailAt {
+		return ErrVerifInjected
+	}
+	if v.Budget > 0 && v.Steps > v.Budget {
+		return ErrVerifBudget
+	}
+	return nil
+}
+
+// VerifDepths reports the sizes of the four VM stacks, the identity of the
+// live scope stack and the length of the main program buffer.
+func (env *Zlisp) VerifDepths() (data, scope, addr, loop int, scopeID *Stack, mainlen int) {
+	return env.datastack.Size(), env.linearstack.Size(), env.addrstack.Size(),
+		env.loopstack.Size(), env.linearstack, len(env.mainfunc.fun)
+}
+
+// VerifGlobalNames lists every name bound in the global scope, every macro
+// and every builtin the interpreter knows.
+func (env *Zlisp) VerifGlobalNames() (globals, macros, builtins []string) {
+	if env.linearstack.Size() > 0 {
+		if glob, ok := env.linearstack.elements[0].(*Scope); ok {
+			for num := range glob.Map {
+				globals = append(globals, env.revsymtable[num])
+			}
+		}
+	}
+	for num := range env.macros {
+		macros = append(macros, env.revsymtable[num])
+	}
+	for num := range env.builtins {
+		builtins = append(builtins, env.revsymtable[num])
+	}
+	return
+}
+
+// VerifParser exposes the interpreter's own parser (the one EvalString uses).
+func (env *Zlisp) VerifParser() *Parser { return env.parser }
